@@ -1,7 +1,7 @@
 #!/bin/bash
 # Runs goirc's own test suite (guard off) and lists failing tests; TestPing is timing-flaky in the baseline.
 export GOFLAGS=-mod=mod GOPROXY=off GOSUMDB=off GOTOOLCHAIN=local
-cd ${1:-/repo} && go test -json -vet=off -count=1 -timeout 25m ./... 2>&1 | python3 -c '
+cd ${1:-/repo} && go test -json -vet=off -count=1 -timeout 3m ./... 2>&1 | python3 -c '
 import sys,json
 fails=[];passed=0;build=[]
 for l in sys.stdin:
